@@ -31,5 +31,9 @@ ParamsRight ==
     /\ (~F.raised /\ F.setid = "toy") => F.backend_name = "nobackend"      \* toy parameters only on the dummy backend
     /\ (~F.raised /\ F.setid \in {"x5_254", "x5_255", "c25519"}) => Eq(F.modulus, FieldOfSet(F.setid))   \* set matches the field in effect
 
+\* subset-sum hash in the field in effect: the first 16 coefficients and the plain hash of the all-ones vector equal the independent
+\* derivation (SHA-512 of (i, it), masked to the bit length of the prime, first candidate below the prime), compared limb-wise
+Inv_GGH == F.kind = "ggh" => (Len(F.output) = Len(F.expect) /\ \A i \in DOMAIN F.expect : Eq(F.output[i], F.expect[i]))
+
 Inv_Params == F.kind = "params" => (ParamsRight \/ KnownParams(Active, F))
 =============================================================================
